@@ -5,13 +5,16 @@ pub mod c04;
 pub mod c05;
 pub mod c06;
 pub mod c07;
+pub mod c08;
 pub mod c09;
 pub mod c10;
+pub mod c11;
 pub mod c12;
 pub mod c13;
 pub mod c14;
 pub mod c15;
 pub mod c17;
+pub mod c18;
 pub mod c19;
 pub mod c20;
 pub mod cfcase;
@@ -30,14 +33,17 @@ pub fn run(ctx: &Ctx) -> i32 {
         "C05" => c05::run(ctx),
         "C06" => c06::run(ctx),
         "C07" => c07::run(ctx),
+        "C08" => c08::run(ctx),
         "C09" => c09::run(ctx),
         "C10" => c10::run(ctx),
+        "C11" => c11::run(ctx),
         "C12" => c12::run(ctx),
         "C13" => c13::run(ctx),
         "C14" => c14::run(ctx),
         "C15" => c15::run(ctx),
         "C16" => c16::run(ctx),
         "C17" => c17::run(ctx),
+        "C18" => c18::run(ctx),
         "C19" => c19::run(ctx),
         "C20" => c20::run(ctx),
         other => {
@@ -74,14 +80,17 @@ pub fn replay(ctx: &Ctx, path: &Path) -> i32 {
         "C05" => c05::replay(ctx, &check, &tape),
         "C06" => c06::replay(ctx, &check, &tape),
         "C07" => c07::replay(ctx, &check, &tape),
+        "C08" => c08::replay(ctx, &check, &tape),
         "C09" => c09::replay(ctx, &check, &tape),
         "C10" => c10::replay(ctx, &check, &tape),
+        "C11" => c11::replay(ctx, &check, &tape),
         "C12" => c12::replay(ctx, &check, &tape),
         "C13" => c13::replay(ctx, &check, &tape),
         "C14" => c14::replay(ctx, &check, &tape),
         "C15" => c15::replay(ctx, &check, &tape),
         "C16" => c16::replay(ctx, &check, &tape),
         "C17" => c17::replay(ctx, &check, &tape),
+        "C18" => c18::replay(ctx, &check, &tape),
         "C19" => c19::replay(ctx, &check, &tape),
         "C20" => c20::replay(ctx, &check, &tape),
         other => {
